@@ -4,6 +4,7 @@ import SlipVerif.Lemmas.Reader
 import SlipVerif.Lemmas.ReaderInv
 import SlipVerif.Lemmas.ReaderHalt
 import SlipVerif.Lemmas.ReaderMono
+import SlipVerif.Lemmas.ReaderCont
 /-
   C02 — reading is a function of the text, not of its delivery.
 
@@ -231,14 +232,42 @@ theorem readOne_is_first_form (T : Tables) (cfg : Cfg) (bs : List Byte) (o : Obj
   · cases hone
   · cases hone
 
-/- `readOne_position` in full — "reading `text.drop pos` from the initial state yields exactly the
-   remaining forms of `readAll text`" — is NOT proved here (it needs an equivalence of the state
-   reached after the first form with the initial state up to the fields a fresh read overwrites:
-   `base`, `sharpNum`, `rn`, `rcnt`, `nextMode`, `line`). The correspondence harness checks it on
-   every generated text instead (entries `ReadOne(form-by-form)` and `read-from-string(form-by-form)`).
-   Proved parts: `readOne_position_partial` (the position lies within the text),
-   `readOne_ignores_rest` (it depends only on the bytes up to the end of the form) and
-   `readOne_is_first_form` (the form is the first form of the whole-text read). -/
+/-- **One-form position, continuation form** (`readOne_position` in full). If `readOne` returns the
+    form `o` and the position `pos`, then reading the whole text is: `o`, followed by whatever a
+    *fresh* reader reads from `text.drop pos` — the same objects in the same order, the same final
+    position (shifted by `pos`), the same error and the same objects finished before the error. So
+    re-reading from the reported position never loses, repeats or re-tokenises anything, and nothing
+    a reader remembers from the first form (`base`, `sharpNum`, the rune accumulator, `nextMode`,
+    token / string bytes) can influence what follows. Hypotheses on the tables (both decided for the
+    regenerated tables in Theorems/GenC02: `step_total`, `cont_ok`): every entry lies in the modelled
+    matrix, and `contOK` — `sharpNum` is read only in `sharpNumMode`, `closeParen` sits only in
+    `valueMode` on a byte the one-form exit counts to the form, a token is not ended by a `"`/`|` that
+    opens a string, a string is ended only by `"`/`|`. -/
+theorem readOne_continuation (T : Tables) (hT : tablesOK T = true) (hC : contOK T = true) (cfg : Cfg)
+    (bs : List Byte) (o : Obj) (pos : Nat) (h : readOne T cfg bs = .ok (o, pos)) :
+    readAll T { cfg with one := false } bs =
+      (readAll T { cfg with one := false } (bs.drop pos)).shift [o] pos :=
+  readOne_cont T hT hC cfg bs o pos h
+-- (concrete instances with the regenerated tables: `GenC02.readOne_continuation_gen` and its samples)
+
+/-- … and so the objects of the whole text are the first form followed by the objects of the rest. -/
+theorem readOne_then_rest (T : Tables) (hT : tablesOK T = true) (hC : contOK T = true) (cfg : Cfg)
+    (bs : List Byte) (o : Obj) (pos : Nat) (rest : List Obj) (p : Nat)
+    (h : readOne T cfg bs = .ok (o, pos))
+    (hrest : readAll T { cfg with one := false } (bs.drop pos) = .ok rest p) :
+    readAll T { cfg with one := false } bs = .ok (o :: rest) (pos + p) := by
+  rw [readOne_continuation T hT hC cfg bs o pos h, hrest]
+  rfl
+
+/-- … and a text whose rest stops inside a form (or is malformed) is reported with the same error,
+    after the same objects: truncation is not hidden by reading form by form. -/
+theorem readOne_then_error (T : Tables) (hT : tablesOK T = true) (hC : contOK T = true) (cfg : Cfg)
+    (bs : List Byte) (o : Obj) (pos : Nat) (e : Err) (done : List Obj)
+    (h : readOne T cfg bs = .ok (o, pos))
+    (hrest : readAll T { cfg with one := false } (bs.drop pos) = .err e done) :
+    readAll T { cfg with one := false } bs = .err e (o :: done) := by
+  rw [readOne_continuation T hT hC cfg bs o pos h, hrest]
+  rfl
 
 /-! ### histories on one stream (Model/ReaderHist.lean): `read` mixed with character operations -/
 
@@ -297,6 +326,60 @@ theorem hist_read_cursor_le (T : Tables) (hT : tablesOK T = true) (cfg : Cfg) (t
     | error e =>
       cases e <;> simp [hc]
   · simpa using hc
+
+/-- **One form at a time = the whole text** (on the history model the driver executes). If the
+    text from the cursor on reads as the objects `code`, then `n` consecutive `(read stream)` calls
+    return the first `n` of these objects, in order, and the eof value for every call after the last
+    object — nothing is lost, repeated or read differently because the text is consumed form by form.
+    (Hypotheses on the tables as for `readOne_continuation`.) -/
+theorem hist_reads_are_the_forms (T : Tables) (hT : tablesOK T = true) (hC : contOK T = true) (cfg : Cfg)
+    (text : List Byte) :
+    ∀ (n c : Nat) (code : List Obj) (p lc : Nat), c ≤ text.length →
+      readAll T { cfg with one := false } (text.drop c) = .ok code p →
+      (runHist T cfg text { cursor := c, lastChar := lc } (List.replicate n .read)).2 =
+        (code.take n).map HOut.form ++ List.replicate (n - code.length) HOut.eof := by
+  intro n
+  induction n with
+  | zero => intro c code p lc _ _; simp [runHist]
+  | succ n ih =>
+    intro c code p lc hc hok
+    simp only [List.replicate_succ, runHist]
+    cases hr : readOne T cfg (text.drop c) with
+    | ok v =>
+      obtain ⟨o, pos⟩ := v
+      have hpos := readOne_position_partial T hT cfg _ o pos hr
+      have hcont := readOne_continuation T hT hC cfg _ o pos hr
+      rw [hok] at hcont
+      cases hrest : readAll T { cfg with one := false } ((text.drop c).drop pos) with
+      | err e done => rw [hrest] at hcont; cases hcont
+      | ok code' p' =>
+        rw [hrest] at hcont
+        simp only [Result.shift, Result.ok.injEq] at hcont
+        obtain ⟨hcode, _⟩ := hcont
+        subst hcode
+        have hdrop : (text.drop c).drop pos = text.drop (c + pos) := by rw [List.drop_drop]
+        rw [hdrop] at hrest
+        have hlen : c + pos ≤ text.length := by simp at hpos; omega
+        have := ih (c + pos) code' p' 0 hlen hrest
+        simp [hstep, hr, this]
+    | error e =>
+      cases e with
+      | eof =>
+        have hnil := one_eof_all T hT hC cfg _ hr code p hok
+        subst hnil
+        have hrest : readAll T { cfg with one := false } (text.drop text.length) = .ok [] 0 := by
+          rw [List.drop_length]; rfl
+        have := ih text.length [] 0 0 (Nat.le_refl _) hrest
+        simp [hstep, hr, this, List.replicate_succ]
+      | _ =>
+        exfalso
+        unfold readOne at hr
+        split at hr
+        · cases hr
+        · cases hr
+        · rename_i e' code' hall
+          rw [one_err_all T cfg _ _ _ hall] at hok
+          cases hok
 
 -- a non-trivial state satisfying the hypotheses: the cursor inside "ab c", nothing just read
 example : ({ cursor := 1 } : HState).stopped = false ∧ ({ cursor := 1 } : HState).lastChar = 0 ∧
